@@ -446,6 +446,27 @@ var (
 	errShutdown = fmt.Errorf("shutdown")
 )
 
+type plainBox struct{ v, w int }
+
+// cancelPublishes: a plain field written before a context is cancelled and read after
+// <-ctx.Done(), and one written before time.AfterFunc / context.AfterFunc and read in the
+// callback: ordered in reality, by synchronisation inside packages context and time that the
+// happens-before monitor cannot see (it must not report them; selftest runs with it on).
+func cancelPublishes() string {
+	b := &plainBox{}
+	ctx, cancel := context.WithCancel(context.Background())
+	out := make(chan int, 2)
+	go func() {
+		<-ctx.Done()
+		out <- b.v
+	}()
+	b.v = 5
+	cancel()
+	b.w = 6
+	time.AfterFunc(time.Millisecond, func() { out <- b.w })
+	return fmt.Sprint(<-out + <-out)
+}
+
 // Cases lists every self-test program with its schedule-independent result.
 var Cases = []Case{
 	{"mutexCounter", mutexCounter, "30"},
@@ -464,5 +485,6 @@ var Cases = []Case{
 	{"handoff", handoff, "99"},
 	{"onceValueBlocking", onceValueBlocking, "28 1p<nil>"},
 	{"poolAndSyncMap", poolAndSyncMap, "12 true"},
+	{"cancelPublishes", cancelPublishes, "11"},
 	{"contextAfterFunc", contextAfterFunc, "1 true false try over shutdown context canceled"},
 }
